@@ -260,6 +260,12 @@ def make_type(world_ref):
             return v.cls
         if isinstance(v, Net):
             return v.class_model(world_ref[0])
+        if isinstance(v, bool):
+            return bool
+        if isinstance(v, int):
+            return _int          # the objects the analysed code sees under the names `int` / `float`
+        if isinstance(v, float):
+            return _float
         return type(v)
     return type_
 
@@ -961,6 +967,8 @@ def _jnp_sum_model(x, *a, **k):
     """the sum of a boolean comparison counts its true entries: canonical form count_nonzero(pred)"""
     if isinstance(x, Pred) and not a and not {kk for kk, v in k.items() if v is not None}:
         return term('count_nonzero', x)
+    if isinstance(x, Sym) and x.op == 'cond' and len(x.args) == 3 and x.args[1:] == (1, 0) and not a and not k:
+        return term('count_nonzero', x.args[0])       # sum(where(mask, 1, 0))
     return _sum_sym(x, *a, **k)
 
 
